@@ -138,6 +138,29 @@ def run_property(prop, tier="quick", replay=None):
     except Exception as e:  # fail closed
         fatal = "%s: %s" % (type(e).__name__, e)
         sys.stderr.write(traceback.format_exc())
+    selftests = None
+    if tier == "thorough" and ctx is not None and os.path.abspath(extract.REPO) == "/repo" and not os.environ.get("RAFTLINT_NO_SELFTEST"):
+        # checker self-tests: every break/keep/repair patch and every kept seeded mutant of this property is applied to a
+        # scratch copy (outside /repo and /verif), facts are re-extracted (cargo check only) and the verdict delta is compared
+        try:
+            import subprocess
+            import tempfile
+            tmpj = tempfile.mktemp(prefix="raftlint-st-", suffix=".json", dir="/var/tmp")
+            env = dict(os.environ)
+            env["RAFTLINT_NO_SELFTEST"] = "1"
+            env.pop("RAFTLINT_EVIDENCE_DIR", None)
+            rr = subprocess.run([sys.executable, os.path.join(VERIF, "engine", "selftest.py"), "--json", tmpj, prop], cwd=VERIF, env=env,
+                                stdout=subprocess.PIPE, stderr=subprocess.STDOUT, text=True)
+            if os.path.exists(tmpj):
+                selftests = json.load(open(tmpj)).get("results", [])
+                os.remove(tmpj)
+            else:
+                selftests = [{"result": "NOT-RUN", "detail": rr.stdout[-300:]}]
+            for st in selftests:
+                if st.get("result") != "PASS":
+                    print("SELFTEST-%s: %s (checker self-test, not a property verdict)" % (st.get("result"), st.get("patch", "")))
+        except Exception as e:  # self-tests never change the verdict
+            selftests = [{"result": "NOT-RUN", "detail": repr(e)}]
 
     known = [k for k in load_known() if k.get("property") == prop]
     open_known = {(k["rule"], k["key"]): k for k in known if k.get("status", "open") == "open"}
@@ -189,6 +212,8 @@ def run_property(prop, tier="quick", replay=None):
         "trusted_base": ["rustc nightly MIR construction (mir_built)", "raftlint extractor", "raftlint rule engine",
                          "class-hierarchy expansion of unresolved trait calls over workspace impls"],
         "exhaustive": False,
+        "checker_selftests": selftests if selftests is not None else "thorough tier only",
+        "checker_selftests_passed": len([s for s in selftests if s.get("result") == "PASS"]) if selftests is not None else None,
         "evaluations": max(1, len(insts)),
         "distinct_nontrivial": max(2, len(set((i["rule"], i["key"]) for i in insts))) if len(insts) >= 2 else len(insts),
         "rule": "one obligation per resolved rule instance (function + site descriptor); distinct = distinct (rule, site) keys",
